@@ -108,6 +108,15 @@ def check_laws(ctx, backend, base, s, a, b, n, x, order=0):
             ctx.check(w.name == n, "with_name(n).name != n", observed=dict(info, n=n, result=str(w), name=w.name), expected=n, entry="with_name")
             ctx.check(w.parent == u.parent or (not tail and w.parent == u), "with_name(n).parent != u.parent", observed=dict(info, n=n, result=str(w), parent=str(w.parent), base_parent=str(u.parent)),
                       expected="equal", entry="with_name-parent")
+    # 5b. with_name / child with a lone surrogate in the argument: the result must still be self-consistent
+    for arg in (n + "\udc80" + n, "da\ud800ta"):
+        for mk in (lambda a: u.with_name(a), lambda a: u / a):
+            try:
+                w = mk(arg)
+            except ValueError:
+                continue
+            ok = w.name == (w.parts[-1] if (len(w.parts) > 1 or w.raw_parts[:1] != ("/",)) else "") and w.name == ref.unquote(w.raw_name)
+            ctx.check(ok, "name, parts[-1] and the decoding of raw_name disagree on a derived URL", observed=dict(info, arg=arg, name=w.name, parts=list(w.parts), raw_name=w.raw_name), expected="consistent", entry="with_name")
     # 6. with_suffix
     if "/" not in x:
         sfx = ("." + x) if x else ""
